@@ -400,6 +400,97 @@ static void run_joint_exc(AllocState& st, int form, std::size_t n1, std::size_t 
     ++n_joint;
 }
 
+// A constructor of the joint object catches the failure of one of its member arrays and goes on: the rolled back
+// array's joint memory must be available again (the retry with the same size fits an exact-fit block). Failure of the
+// very first element is left out: the library's builder keeps the memory then (D19, classified earlier).
+template <class E>
+struct JRetry : joint_type<JRetry<E>>
+{
+    bool           caught = false; // (declared before `a`: initialised before the array is built)
+    std::size_t    top_before = 0, top_after_failure = 0;
+    joint_array<E> a;
+    static joint_array<E> attempt(JRetry& self, int form, std::size_t n, const std::vector<E>& protos)
+    {
+        auto&  stk = detail::get_stack(self);
+        char*  mem = detail::get_memory(self);
+        self.top_before = stk.capacity_used(mem);
+        try
+        {
+            switch (form)
+            {
+            case F_SIZE: return joint_array<E>(n, self);
+            case F_VALUE: return joint_array<E>(n, protos[0], self);
+            default: return joint_array<E>(protos.begin(), protos.begin() + long(n), self);
+            }
+        }
+        catch (ElemFail&)
+        {
+            self.caught = true;
+            self.top_after_failure = stk.capacity_used(mem);
+            LOG.push_back("caught");
+            fail_at = -1;
+            // the same array again: fits only if the failed attempt gave its memory back
+            return joint_array<E>(protos.begin(), protos.begin() + long(n), self);
+        }
+    }
+    JRetry(joint jt, int form, std::size_t n, const std::vector<E>& protos) : joint_type<JRetry<E>>(jt), a(attempt(*this, form, n, protos)) {}
+};
+
+template <class E>
+static void run_joint_retry(AllocState& st, int form, std::size_t n, long k)
+{
+    quiet = true;
+    std::vector<E> protos(std::max<std::size_t>(n, 3));
+    quiet = false;
+    std::size_t extra = n * sizeof(E) + (alignof(E) > alignof(JRetry<E>) ? alignof(E) : 0); // exact fit (+ alignment slack only)
+    reset_case(0, k);
+    std::string what = fmt("joint_array %s form, n=%zu, element %ld throws, caught inside the joint object's constructor", form_name(form), n, k);
+    bool        threw_out = false, oofm = false;
+    {
+        LogAlloc a(st);
+        try
+        {
+            auto jp = allocate_joint<JRetry<E>>(a, joint_size(extra), form, n, protos);
+            if (!jp->caught)
+                fail(what + ": the element did not throw (harness)");
+            else if (jp->top_after_failure > (jp->top_before + alignof(E) - 1) / alignof(E) * alignof(E) + alignof(E))
+                // (the rollback returns to the start of the array: the alignment padding in front of it stays consumed,
+                // which costs nothing - the next array needs the same padding)
+                fail(fmt("C20 %s: %zu bytes of joint memory stay consumed after the rollback", what.c_str(), jp->top_after_failure - jp->top_before));
+            if (jp->a.size() != n)
+                fail("C20 " + what + ": the retried array has the wrong size");
+            jp.reset();
+        }
+        catch (ElemFail&)
+        {
+            threw_out = true;
+        }
+        catch (out_of_fixed_memory&)
+        {
+            oofm = true;
+        }
+    }
+    if (oofm)
+        fail("C20 " + what + ": the same array no longer fits afterwards (out_of_fixed_memory): the failed attempt kept its joint memory");
+    if (threw_out)
+        fail("C20 " + what + ": harness: exception escaped");
+    if (!registry().empty())
+    {
+        bool live = false;
+        for (auto& kv : registry())
+            if (kv.second >= 0)
+                live = true;
+        if (live)
+            fail("C20 " + what + ": elements left alive");
+    }
+    if (!st.out.empty())
+        fail("C20 " + what + ": the block of the joint object was not released");
+    quiet = true;
+    protos.clear();
+    quiet = false;
+    ++n_joint;
+}
+
 // clone_joint and move-with-allocator of an existing object (ids continue after the original's)
 template <class E>
 static void run_joint_clone(AllocState& st, std::size_t n1, std::size_t n2, std::size_t n3, long k, bool move_form)
@@ -686,7 +777,7 @@ static void sweep(AllocState& st, bool thorough, Rng& g)
             run_uarr<E>(st, n, long(k));
     }
     // joint objects: three member arrays; every form; failure at every element index
-    static const std::size_t layouts[][3] = {{0, 0, 0}, {1, 0, 0}, {0, 2, 0}, {2, 3, 1}, {3, 0, 2}, {1, 1, 1}, {4, 4, 4}, {0, 0, 5}, {16, 0, 0}, {5, 6, 5}};
+    static const std::size_t layouts[][3] = {{0, 0, 0}, {1, 0, 0}, {3, 0, 0}, {0, 2, 0}, {2, 3, 1}, {3, 0, 2}, {1, 1, 1}, {4, 4, 4}, {0, 0, 5}, {16, 0, 0}, {5, 6, 5}};
     for (auto& l : layouts)
     {
         if (!thorough && (l[0] + l[1] + l[2] > 9 && l[0] != 16))
@@ -700,6 +791,10 @@ static void sweep(AllocState& st, bool thorough, Rng& g)
             for (std::size_t k = 0; k < total; ++k)
                 run_joint_exc<E>(st, form, l[0], l[1], l[2], long(k));
         }
+        if (l[1] == 0 && l[2] == 0 && l[0] >= 2)
+            for (int form : {int(F_SIZE), int(F_VALUE), int(F_RANGE)})
+                for (std::size_t k = 1; k < l[0]; ++k)
+                    run_joint_retry<E>(st, form, l[0], long(k));
         for (int mv = 0; mv < 2; ++mv)
         {
             run_joint_clone<E>(st, l[0], l[1], l[2], -1, mv != 0);
